@@ -568,3 +568,22 @@ pub fn giant(sink: &mut Sink, thorough: bool) {
         }
     }
 }
+
+/// Inputs kept by the coverage-guided fuzzer (fuzz/fuzz_targets/qrbuild.rs): two option bytes, then the content - decoded exactly as the
+/// fuzz target decodes them.  Each becomes an ordinary, fully judged build.
+pub fn discovered(corpus: &str) -> Vec<BuildSpec> {
+    let mut names: Vec<_> = std::fs::read_dir(corpus).map(|d| d.filter_map(|e| e.ok()).map(|e| e.path()).collect::<Vec<_>>()).unwrap_or_default();
+    names.sort();
+    let mut out = Vec::new();
+    for p in names {
+        let Ok(data) = std::fs::read(&p) else { continue };
+        if data.len() < 2 { continue; }
+        let (o1, o2) = (data[0], data[1]);
+        let ecl = match o1 % 5 { 0 => None, k => Some(k as usize - 1) };
+        let mode = match (o1 / 5) % 4 { 0 => None, k => Some(k as usize - 1) };
+        let version = if o2 % 4 == 1 { Some([1usize, 2, 5, 9][(o2 as usize / 4) % 4]) } else { None };
+        let mask = if o2 % 4 == 2 { Some((o2 as usize / 4) % 8) } else { None };
+        out.push(spec(data[2..].to_vec(), ecl, mode, version, mask, format!("discovered:{}", mode.map_or(9, |m| m))));
+    }
+    out
+}
